@@ -17,7 +17,12 @@ CONSTANTS
   MaxPrep = 2
   MaxThrows = 1
   ThrowFixed = TRUE
+  AreaOffs = {0, 8}
+  AlignUp = FALSE
+  MaxDtor = 1
+  DtorFirst = TRUE
+  MaxDtorMoves = 1
   MaxOwner = 2
-INVARIANTS TypeOK Exclusive BlockAlive BookkeepingTruthful LargeEnough SizeRoundTrip HeapFallbackFreedOnce TrailerTruthful MtSafeNeverShares BusyMeansInUse ReuseBlock ExtraCtorDtorOnce
+INVARIANTS TypeOK Exclusive BlockAlive BookkeepingTruthful LargeEnough SizeRoundTrip HeapFallbackFreedOnce TrailerTruthful MtSafeNeverShares BusyMeansInUse ReuseBlock ExtraCtorDtorOnce ExtraDiesInOwnBlock
 PROPERTIES ExtraUsableAtCreation WarmNoAlloc CompleteNoAlloc MoveNoAlloc
 CHECK_DEADLOCK FALSE
